@@ -212,7 +212,8 @@ func TestProp(t *testing.T) {
 			"for krovak). Source geographic system alternates between WGS84 and the system on the destination's own datum. Oracle with fresh parses and transformers for every " +
 			"stage: geo->proj->geo within 1e-6 deg (lon modulo 360), then proj->geo->proj within 0.01 m in the destination unit (0.02 m when a small +towgs84 shift from WGS84 is part of the round trip; named datums with large shifts and non-WGS84 ellipsoids with a shift are always paired with the geographic system on their own datum, because a 2-D round trip cannot carry the ellipsoidal height), " +
 			"no error or NaN. Non-trivial = non-default ellipsoid, or a datum, or a non-metre unit, or a position >1 deg from the central meridian. Distinct by case hash." +
-			" Round 9: the innermost ring before the pole (0.0002-0.0003 degrees) is drawn three times as often; positions that pass a datum shift stay at |lat| <= 86.",
+			" Round 9: the innermost ring before the pole (0.0002-0.0003 degrees) is drawn three times as often; positions that pass a datum shift stay at |lat| <= 86." +
+			" Round 10: one definition in ten carries +R_A; Mercator positions through a datum shift stay at |lat| <= 75.",
 		Assumptions: []string{"positions exactly on the meridian opposite the central one are the edge of the map, not inside the usable region (an experiment with such positions showed the unchanged tree putting them on either edge after a prime-meridian shift, and Mercator refusing lon = pi + 1 ulp): they are not generated", "explicit +towgs84 terms are kept small (<=100 m, <=1 arcsec, <=5 ppm) in this check; large shifts are checked differentially against proj4js in C09"},
 		Gen:         gen,
 		Run:         run,
